@@ -1720,7 +1720,14 @@ impl UntypedPattern {
                 if let Some((_, struct_def)) = defs.structs.get(struct_name.as_str()) {
                     let mut errors = vec![];
                     let mut typed_fields = Vec::with_capacity(fields.len());
-                    for (field_name, field_value) in fields {
+                    for (i, (field_name, field_value)) in fields.iter().enumerate() {
+                        if fields[..i].iter().any(|(f, _)| f == field_name) {
+                            // a field must not be bound more than once in a pattern
+                            let e = TypeErrorEnum::PatternDoesNotMatchType(Type::Struct(
+                                struct_name.clone(),
+                            ));
+                            errors.push(Some(TypeError::new(e, meta)));
+                        }
                         if let Some(field_type) = struct_def.get(field_name.as_str()) {
                             match field_value.type_check(env, _fns, defs, Some(field_type.clone()))
                             {
